@@ -67,7 +67,7 @@ def geometry(n):
     if t == 'path':
         return ' d="M 10 10 L 40 10 L 40 40 Z"'
     if t == 'rect':
-        return ' width="30" height="30"'
+        return '' if 'width=' in n.extra else ' width="30" height="30"'
     if t == 'clipPath':
         return '' if n.flag else ' clipPathUnits="objectBoundingBox"'
     if t == 'mask':
@@ -138,53 +138,6 @@ def to_coq(n, names, top=True):
 
 
 # ------------------------------------------------------------------------------------------------
-# python copy of the use-expansion guards (KnownClass predicate `use_loop` of Model/SvgBuild.v)
-# ------------------------------------------------------------------------------------------------
-def use_loop(root):
-    nodes = list(root.walk())
-    first = {}
-    for n in nodes:
-        if n.id is not None and n.id not in first:
-            first[n.id] = n
-
-    def href(n):
-        for attr, target, _ in n.links:
-            if attr == 'href':
-                return first.get(target) if target is not None else None
-        return None
-
-    def skipped(node, origin, link):
-        if link is node or (origin is not None and link is origin):
-            return True
-        for c in list(link.walk())[1:]:
-            if c.tag == 'use':
-                l2 = href(c)
-                if l2 is not None and (l2 is node or l2 is link):
-                    return True
-        return False
-
-    import sys
-    sys.setrecursionlimit(max(sys.getrecursionlimit(), 100000))
-
-    def go(x, origin, path, fuel):
-        if fuel == 0:
-            return True
-        if x.tag in ('style', 'text'):
-            return False
-        if x.tag == 'use':
-            link = href(x)
-            if link is None or skipped(x, origin, link):
-                return False
-            s = (id(link), id(x))
-            if s in path:
-                return True
-            return go(link, x, path | {s}, fuel - 1)
-        return any(go(k, origin, path, fuel - 1) for k in x.kids)
-
-    return go(root, None, frozenset(), 5000)
-
-
-# ------------------------------------------------------------------------------------------------
 # element construction for one reference: (type of the element, out link kind, placement, target id)
 # ------------------------------------------------------------------------------------------------
 TYPE_OF_IN = {'use': 'g', 'fill': 'pattern', 'stroke': 'pattern', 'clip': 'clipPath', 'mask': 'mask', 'filter': 'filter',
@@ -249,10 +202,15 @@ def make_element(typ, eid, kind, place, target, flag):
     return e
 
 
-def entry_for(kind, typ, target):
-    """plain content of the root that references `target` (an element reached through a link of `kind`)"""
+def entry_for(kind, typ, target, as_use=False):
+    """plain content of the root that references `target` (an element reached through a link of `kind`);
+    as_use: the referencing element is a `use` with x / y (its group carries a transform) of a plain shape"""
     if typ in ('g', 'use'):
         return []                           # rendered anyway: it is a child of the root
+    if as_use and (kind in ('clip', 'mask', 'filter') or (kind == 'href' and typ == 'filter')):
+        attr = 'filter' if kind == 'href' else KIND_ATTR[kind]
+        return [El('defs', kids=[El('path', 'vf_plain')]),
+                El('use', 'vf_entry', extra=' x="7" y="3"').add('href', 'vf_plain').add(attr, target)]
     if kind == 'href':
         if typ == 'filter':
             return [El('path', 'vf_entry').add('filter', target)]
@@ -281,7 +239,18 @@ def resolve_types(kinds, places, rot):
     return types
 
 
-def cycle_doc(kinds, places, rot=0, via=False, flags=None):
+EXTRA_WITNESSES = {'vf_w0': ([2.0, 2.0, 6.0, 6.0], [4, 5, 6]), 'vf_w2': ([2.0, 90.0, 6.0, 6.0], [7, 8, 9])}
+
+
+def extra_witnesses(body):
+    """independent shapes before the referencing content and, in a group of their own, after it
+    (the main witness `vf_witness` is the last child of the root)"""
+    w0 = El('rect', 'vf_w0', extra=' x="2" y="2" width="6" height="6"').add('fill', None, '#040506')
+    w2 = El('rect', 'vf_w2', extra=' x="2" y="90" width="6" height="6"').add('fill', None, '#070809')
+    return [w0] + body + [El('g', kids=[w2])]
+
+
+def cycle_doc(kinds, places, rot=0, via=False, flags=None, use_entry=False):
     """simple cycle e0 -> e1 -> ... -> e0; element i carries link kinds[i] to element i+1."""
     n = len(kinds)
     types = resolve_types(kinds, places, rot)
@@ -295,10 +264,10 @@ def cycle_doc(kinds, places, rot=0, via=False, flags=None):
         # entered through an element that is not on the cycle
         pre = make_element(types[0] if types[0] != 'use' else 'g', 'pre', k_in0, places[-1], ids[0], True)
         body.append(pre)
-        body += entry_for(k_in0, pre.tag, 'pre')
+        body += entry_for(k_in0, pre.tag, 'pre', use_entry)
     else:
-        body += entry_for(k_in0, body[0].tag, ids[0])
-    return number(El('svg', kids=body))
+        body += entry_for(k_in0, body[0].tag, ids[0], use_entry)
+    return number(El('svg', kids=extra_witnesses(body)))
 
 
 def all_cycles(maxlen):
@@ -374,4 +343,4 @@ def random_doc(rng, n):
         elif t == 'marker':
             body.append(El('path').add(rng.choice(['marker-start', 'marker-mid', 'marker-end']), ids[i]))
     rng.shuffle(body)
-    return number(El('svg', kids=body))
+    return number(El('svg', kids=extra_witnesses(body)))
